@@ -188,13 +188,21 @@ def java_run(job, timeout=60, env=None):
 
 
 def run_program(build, prog, route, workdir, qlevel=None, extra_args=(), timeout=60, env=None, cpu_limit=None):
-    """Render prog into workdir/<id>.as and run it by route 'interp', 'ao', 'c' or 'java'.
+    """Render prog into workdir/<id>.as and run it by route 'interp', 'ao', 'c', 'java', 'split-interp', 'split-c',
+    'split0-interp' or 'split0-c' (the last four: library unit + client unit, see run_split; split0 = library at -Q0).
     Returns dict(rc, out, err, phase) where phase tells where a failure happened
     (java: 'compile' = aldor -Fjava, 'javac', 'run')."""
     if route == "java":
         job = java_emit(build, prog, workdir, qlevel, extra_args, timeout, env, cpu_limit)
         java_compile([job], os.path.join(job["dir"], "classes"))
         return java_run(job, timeout, env)
+    if route in ("split-interp", "split-c", "split0-interp", "split0-c"):
+        # split0-*: the library unit is compiled at -Q0 whatever the client's level (no cross-unit inlining of its code)
+        r = run_split(build, prog, "split-" + route.split("-", 1)[1], workdir, qlevel, extra_args, timeout, env,
+                      lib_qlevel=0 if route.startswith("split0-") else None, tag=route)
+        if r is not None:
+            return r
+        route = route.split("-", 1)[1]   # nothing can be moved into a library unit: the program runs as one unit
     d = _jobdir(prog, route, workdir, qlevel, extra_args)
     src = os.path.join(d, "p.as")
     with open(src, "w") as fh:
@@ -220,6 +228,49 @@ def run_program(build, prog, route, workdir, qlevel=None, extra_args=(), timeout
         rc, out, err, to = vlib.run(["./p"], cwd=d, timeout=timeout, env=env)
         return {"rc": rc, "out": out.decode(errors="replace"), "err": err.decode(errors="replace"), "phase": "run", "timeout": to, "dir": d}
     raise ValueError(route)
+
+
+def run_split(build, prog, route, workdir, qlevel=None, extra_args=(), timeout=60, env=None, lib_qlevel=None, tag=None):
+    """Routes 'split-interp' / 'split-c' (separate compilation, DESIGN.md C05): the program is rendered as a library unit
+    plib.as and a client unit p.as (render.split_plan: functions that throw go to the library together with the exception
+    declarations, functions holding a try stay in the client); the library is compiled to plib.ao (at lib_qlevel, default
+    qlevel), then the client is interpreted against it ('split-interp') or both are compiled to C and linked ('split-c').
+    Returns the usual result dict with the extra fields split = True, throwers_in_lib = n, lib_funs = [names];
+    None when no function of the program can be moved (run_program then falls back to the one-unit route)."""
+    if prog.get("source_text") or dialect_of(prog) != "axllib":
+        return None
+    plan = render.split_plan(prog)
+    if plan is None:
+        return None
+    d = _jobdir(prog, tag or route, workdir, qlevel, extra_args)
+    lib_text, client_text = render.render_split(prog, plan["lib_funs"], lib_exns=plan["lib_exns"])
+    with open(os.path.join(d, "plib.as"), "w") as fh:
+        fh.write(lib_text)
+    with open(os.path.join(d, "p.as"), "w") as fh:
+        fh.write(client_text)
+    info = {"split": True, "throwers_in_lib": plan["throwers"], "lib_funs": [prog["funs"][i]["name"] for i in plan["lib_funs"]]}
+
+    def res(rc, out, err, phase, to):
+        r = {"rc": rc, "out": out.decode(errors="replace"), "err": err.decode(errors="replace"), "phase": phase, "timeout": to, "dir": d}
+        r.update(info)
+        return r
+    q = ["-Q%s" % qlevel] if qlevel is not None else []
+    lq = ["-Q%s" % lib_qlevel] if lib_qlevel is not None else q
+    want_c = route == "split-c"
+    rc, out, err, to = vlib.aldor(build, lq + list(extra_args) + ["-Fao"] + (["-Fc"] if want_c else []) + ["plib.as"], d, timeout=timeout, env=env)
+    if rc != 0 or to or not os.path.exists(os.path.join(d, "plib.ao")):
+        return res(rc, out, err, "compile", to)
+    if not want_c:
+        rc, out, err, to = vlib.aldor(build, q + list(extra_args) + ["-Ginterp", "p.as"], d, timeout=timeout, env=env)
+        return res(rc, out, err, "interp", to)
+    rc, out, err, to = vlib.aldor(build, q + list(extra_args) + ["-Fc", "-Fmain", "p.as"], d, timeout=timeout, env=env)
+    if rc != 0 or to:
+        return res(rc, out, err, "compile", to)
+    rc, out, err, to = vlib.link_c(build, d, ["p.c", "p-aldormain.c", "plib.c"], "p")
+    if rc != 0 or to:
+        return res(rc, out, err, "link", to)
+    rc, out, err, to = vlib.run(["./p"], cwd=d, timeout=timeout, env=env)
+    return res(rc, out, err, "run", to)
 
 
 def run_many(build, jobs, workdir, nproc=None, timeout=60, timing=None, cpu_limit=None):
